@@ -235,11 +235,19 @@ def _eval_composite(case):
     try:
         with connlib.quiet():
             base, lead_desc, comp = build_composite(L, case)
+            # the descriptions the composite is built on, before the composite is asked anything (seeded changes C17-m7 / C10-m7:
+            # the parks an exclusion makes necessary are appended IN PLACE to the list the base layer hands out)
+            before = [layers_of(L, d.gate_sequences) for d in (base, lead_desc) if d is not None]
             o = observe(L, comp)
             answer = (f"ids={L.qcsv(o['ids'])} layers={layers_str(L, o['layers'])} gidx={'|'.join(o['gidx'])} "
                       f"pidx={'|'.join(o['pidx'])} cmap={o['cmap']}")
             src = layers_of(L, (lead_desc or base).gate_sequences)
             fails = []
+            after = [layers_of(L, d.gate_sequences) for d in (base, lead_desc) if d is not None]
+            if after != before:
+                k = next(i for i, (x, y) in enumerate(zip(before, after)) if x != y)
+                fails.append({'what': 'querying-the-composite-changed-the-description-it-is-built-on',
+                              'which': 'base' if k == 0 else 'leading', 'before': before[k], 'after': after[k]})
             xe = [frozenset(p) for p in case['xe']]
             want = [[g for g in gates if frozenset(g) not in xe and not (set(g) & set(case['xq']))] for gates, _ in src]
             if [g for g, _ in o['layers']] != want:
